@@ -453,6 +453,14 @@ func drawIssuer(t *rapid.T, label string) gen.NameSpec {
 			{{{T: "CN", V: "dev ca 1"}}},
 			{{{T: "CN", V: "dev ca 12"}}},
 			{{{T: "CN", V: "dev ca 125"}}},
+			// UTF8String names that differ inside ONE multi-byte character only (u-umlaut / o-umlaut: c3 bc / c3 b6)
+			{{{T: "CN", V: "Z\u00fcrich CA", Kind: "utf8"}}},
+			{{{T: "CN", V: "Z\u00f6rich CA", Kind: "utf8"}}},
+			{{{T: "CN", V: "Z\u00fcrich CA", Kind: "utf8"}}},
+			{{{T: "CN", V: "Z\u00f6rich CA", Kind: "utf8"}}},
+			// ... and TeletexString names that differ in one latin-1 byte
+			{{{T: "CN", V: "Z\u00fcrich CA", Kind: "t61"}}},
+			{{{T: "CN", V: "Z\u00f6rich CA", Kind: "t61"}}},
 		}).Draw(t, label+"_near")
 	default:
 		return gen.DrawName(t, label, 0)
@@ -539,7 +547,7 @@ var spec = ev.Spec[Case]{
 	ID:   "C18",
 	Gen:  genCase,
 	Run:  runCase,
-	Rule: "rapid draws a history of up to 40 store operations {start(meta), insert(issuer, serial 1..20 bytes, UTC/Generalized date, 0..3 extensions), ext-meta(cRLNumber|none), signer(cert), locations(CDP list|url|file), replace-with(a second store built by its own ops), close+reopen(disk)}; issuers include names differing minimally from each other (extra RDN, trailing '_', RDN order, multi-valued RDN, empty name) and earlier serials are re-used under other issuers. The history is applied in lock-step to a MapStore, a LevelDbStore and a reference model; after EVERY step every getter of both stores is compared with the model for all inserted pairs and their neighbours (+-1, x256, same serial under every other issuer, and the pair under another issuer that reads the same when name and serial are concatenated). Non-trivial: >= 1 insert and a replace-after-insert or a reopen; distinct by (multiset of op kinds, inserts, probes).",
+	Rule: "rapid draws a history of up to 40 store operations {start(meta), insert(issuer, serial 1..20 bytes, UTC/Generalized date, 0..3 extensions), ext-meta(cRLNumber|none), signer(cert), locations(CDP list|url|file), replace-with(a second store built by its own ops), close+reopen(disk)}; issuers include names differing minimally from each other (extra RDN, trailing '_', RDN order, multi-valued RDN, empty name, names ending in digits one of which is a prefix of the other, UTF8String names differing inside one multi-byte character, TeletexString names differing in one latin-1 byte) and earlier serials are re-used under other issuers. The history is applied in lock-step to a MapStore, a LevelDbStore and a reference model; after EVERY step every getter of both stores is compared with the model for all inserted pairs and their neighbours (+-1, x256, same serial under every other issuer, and the pair under another issuer that reads the same when name and serial are concatenated). Non-trivial: >= 1 insert and a replace-after-insert or a reopen; distinct by (multiset of op kinds, inserts, probes).",
 	Assumptions: []string{
 		"FNV-64 key collisions are outside the claim (none is generated by chance)",
 		"meta times are in the UTCTime range (the profile of C06), as the reader can only produce those",
